@@ -7,7 +7,9 @@ request : `c13 <api> <drv> <op> <stop> <cmds> <outs> [ignored…]`
 * `api`  : `g.cmd n.cmd` (SendCommand) | `n.cfg` (SendConfig) | `d.multi` (NewResponse/Record/AppendResponse
            directly) | anything else (SendCommands family)
 * `drv`  : hex list, the driver-level failure strings
-* `op`   : `n` (opoptions.WithFailedWhenContains not given) or `s` followed by a hex list (`s.` = given, empty)
+* `op`   : the operation options of the call in order, `/`-separated (`n` = none): `s<hexlist>`
+           opoptions.WithFailedWhenContains (`s.` = given, empty), `t` WithStopOnFailed, `x…` an operation
+           option of another layer (channel / network / netconf), `b` an option returning an error
 * `stop` : `1` iff opoptions.WithStopOnFailed given
 * `cmds` : hex list of commands (`g.cmd`/`n.cmd`: one element; `n.cfg`: one element, the config text)
 * `outs` : hex list; the device answers the i-th transmitted line with `outs[i]` (empty beyond)
@@ -68,16 +70,22 @@ def projMulti (m : Multi) (log : List Bytes) : String :=
 /-- drop the per-member section (`SendConfig` hides the members) -/
 def dropBits (s : String) : String := "|".intercalate ((s.splitOn "|").filter fun p => !p.startsWith "B")
 
-def parseOp (s : String) : Option (Option (List Bytes)) :=
-  if s == "n" then some none
-  else if s.startsWith "s" then (hexList (s.drop 1).toString).map some
+/-- one token of the option list: `s<hexlist>` WithFailedWhenContains, `t` WithStopOnFailed,
+`x…` an operation option of another layer, `b` an option that returns an error -/
+def parseTok (s : String) : Option OpOpt :=
+  if s == "t" then some .stop
+  else if s == "b" then some .bad
+  else if s.startsWith "x" then some .foreign
+  else if s.startsWith "s" then (hexList (s.drop 1).toString).map OpOpt.fwc
   else none
 
-def handle (api : String) (drv : List Bytes) (opF : Option (List Bytes)) (stop : Bool)
+/-- `n` = no options; otherwise tokens separated by `/`, in call order -/
+def parseOpts (s : String) : Option (List OpOpt) :=
+  if s == "n" then some [] else (s.splitOn "/").mapM parseTok
+
+def handleOp (api : String) (drv : List Bytes) (opF : Option (List Bytes)) (stop : Bool) (op : Op)
     (cmds outs : List Bytes) : String :=
-  -- `d.multi` drives the response package alone: no operation options are involved
-  let op := if api == "d.multi" then { fwc := [], stop := false } else newOperation opF stop
-  -- the spec side uses what the caller asked for, not what `newOperation` makes of it
+  -- the spec side uses what the caller asked for, not what `NewOperation` makes of it
   let eff := effective (opF.getD []) drv
   let nolf := b2s (decide (NoLF eff))
   let s0 : Sess Nat := { dev := 0, log := [] }
@@ -115,13 +123,24 @@ def handle (api : String) (drv : List Bytes) (opF : Option (List Bytes)) (stop :
       | (none, _) => "Enoop"
     s!"{b2s (decide (NoEmpty eff) && !cmds.isEmpty)} {nolf} {spec} {model} {b2s (proj == spec)}"
 
+def handle (api : String) (drv : List Bytes) (opts : List OpOpt) (cmds outs : List Bytes) : String :=
+  -- `d.multi` drives the response package alone: no operation options are involved
+  if api == "d.multi" then handleOp api drv none false { fwc := [], stop := false } cmds outs
+  else
+    match newOperationL opts with
+    | some op => handleOp api drv (lastFwc opts) (hasStop opts) op cmds outs
+    -- an option returned an error: the call fails, nothing is sent; outside the property's domain
+    | none => "0 1 Eother Eother 1"
+
 end C13
 
-/-- line-protocol handler for property C13 (arguments after the leading `c13` token) -/
+/-- line-protocol handler for property C13 (arguments after the leading `c13` token); a `1` in the
+`stop` field is the old spelling of a trailing `t` token -/
 def handleC13 : List String → String
   | api :: drv :: op :: stop :: cmds :: outs :: _ =>
-    match hexList drv, C13.parseOp op, hexList cmds, hexList outs with
-    | some drv, some opF, some cmds, some outs => C13.handle api drv opF (s2b stop) cmds outs
+    match hexList drv, C13.parseOpts op, hexList cmds, hexList outs with
+    | some drv, some opts, some cmds, some outs =>
+      C13.handle api drv (if s2b stop then opts ++ [.stop] else opts) cmds outs
     | _, _, _, _ => "bad-op"
   | _ => "bad-op"
 
